@@ -78,14 +78,22 @@ func (d *dataWorld) insertChecked(tp *simkit.Tape, rows [][]sqlmini.Value, speci
 		if k.Null {
 			continue
 		}
-		q := fmt.Sprintf("select id from %s where %s = %s and id = %s", rule.table, rule.key, lit(k), lit(row[0]))
+		q := fmt.Sprintf("select * from %s where %s = %s and id = %s", rule.table, rule.key, lit(k), lit(row[0]))
 		p := d.run(q)
-		if p.err != nil || p.res == nil || len(p.res.Rows) != 1 {
+		found := false
+		if p.err == nil && p.res != nil {
+			for _, got := range p.res.Rows {
+				if canonRow(got) == canonRef(row) {
+					found = true
+				}
+			}
+		}
+		if !found {
 			n := -1
 			if p.res != nil {
 				n = len(p.res.Rows)
 			}
-			if d.fail("C03-row-not-where-lookups-look", "row %v was stored by %q but the point query %q returns %d rows (%v); it was sent to %q", rowKey(row), sql, q, n, errText(p.err), p.recvSQL) {
+			if d.fail("C03-row-not-where-lookups-look", "row %v was stored by %q but the point query %q does not return it (%d rows, %v); it was sent to %q", rowKey(row), sql, q, n, errText(p.err), p.recvSQL) {
 				return false
 			}
 		}
@@ -345,7 +353,14 @@ func (d *dataWorld) opSelect(tp *simkit.Tape, stats map[string]int) {
 	ordered := 0 // number of leading result columns that form the ORDER BY key (0: unordered)
 	desc := []bool{}
 	shape := ""
-	switch tp.Choose(10) {
+	pick := tp.Choose(10)
+	if pick == 4 && simkit.Params["partition"] == "strict" {
+		pick = 5 // the strict partition leaves out the statements of known findings C02-F1 and C02-F2
+	}
+	if pick == 3 && simkit.Params["partition"] == "strict" {
+		pick = 6
+	}
+	switch pick {
 	case 0, 1:
 		shape, sql = "star", fmt.Sprintf("select * from %s where %s", t, cond)
 	case 2:
@@ -426,7 +441,7 @@ func (d *dataWorld) opSelect(tp *simkit.Tape, stats map[string]int) {
 		return
 	}
 	// C02: the result equals the reference
-	if len(o.res.Columns) != len(ref.Cols) {
+	if len(o.res.Rows) > 0 && len(o.res.Columns) != len(ref.Cols) {
 		d.fail("C02-column-count", "%q: the client received %d columns, the statement projects %d", sql, len(o.res.Columns), len(ref.Cols))
 		return
 	}
@@ -442,6 +457,12 @@ func (d *dataWorld) opSelect(tp *simkit.Tape, stats map[string]int) {
 		sort.Strings(g2)
 		sort.Strings(w2)
 		if !sameStrings(g2, w2) {
+			if shape == "aggregates-distinct" && len(o.received) > 1 {
+				d.finding = "C02-F1"
+			}
+			if strings.HasPrefix(shape, "aggregates") && len(o.received) == 0 && len(got) == 0 && len(want) == 1 {
+				d.finding = "C02-F2"
+			}
 			d.fail("C02-result-differs-from-single-database", "%q (rule %s): the proxy returned %d rows %v; one database holding all shards returns %d rows %v; backends received %q", sql, rule.typ, len(got), clip(got), len(want), clip(want), o.recvSQL)
 			return
 		}
@@ -460,11 +481,24 @@ func (d *dataWorld) opSelect(tp *simkit.Tape, stats map[string]int) {
 				return
 			}
 		}
-		if strings.Contains(sql, " limit ") {
-			// a unique key orders totally: the rows themselves must agree
-			if !sameStrings(got, want) {
-				d.fail("C02-result-differs-from-single-database", "%q: proxy rows %v, reference rows %v", sql, clip(got), clip(want))
+		if i := strings.Index(sql, " limit "); i >= 0 {
+			// rows with equal keys may come in any order, so LIMIT may cut a tie group differently: every
+			// returned row must be a row of the unlimited result, as often as it occurs there
+			full, ferr := d.ref.Exec(sql[:i], rule.db)
+			if ferr != nil {
+				d.fail("harness", "reference: %v", ferr)
 				return
+			}
+			avail := map[string]int{}
+			for _, row := range full.Rows {
+				avail[canonRef(row)]++
+			}
+			for _, g := range got {
+				if avail[g] == 0 {
+					d.fail("C02-result-differs-from-single-database", "%q: the proxy returned row %s, which one database holding all shards does not return (or returns less often); proxy rows %v, reference rows %v", sql, g, clip(got), clip(want))
+					return
+				}
+				avail[g]--
 			}
 		}
 	}
